@@ -182,6 +182,7 @@ class Topic:
         self.ts_type = ts_type  # 0 CreateTime, 1 LogAppendTime
         self.internal = internal
         self.authorized = authorized
+        self.writable = True  # Write ACL (Produce / AddPartitionsToTxn); `authorized` also hides the topic
         self.partitions = []
         for i in range(nparts):
             self.add_partition()
@@ -614,7 +615,7 @@ class Cluster:
         part = self.partition(topic, index)
         if part is None:
             return UNKNOWN_TOPIC_OR_PARTITION, -1, -1, -1
-        if not part.topic.authorized:
+        if not part.topic.authorized or not part.topic.writable:
             return TOPIC_AUTHORIZATION_FAILED, -1, -1, -1
         if part.leader != broker.node_id:
             return NOT_LEADER, -1, -1, -1
